@@ -54,6 +54,23 @@ mod verif_kani {
         assert!(it.next().is_none());
     }
 
+    /// one insert that needs MORE than one doubling (entry of 16 + 4 + 30 = 50 bytes into a 16-byte buffer: 16 -> 32 -> 64),
+    /// sizes concrete, contents symbolic: no arithmetic underflow, no out-of-buffer access, entry read back intact.
+    #[kani::proof]
+    #[kani::unwind(66)]
+    fn c17_entries_insert_needs_two_doublings() {
+        let mut e = Entries::with_capacity(16);
+        let k: [u8; 4] = kani::any(); let v: [u8; 30] = kani::any();
+        e.insert(&k[..], &v[..]);
+        assert!(e.bounds_count == 1 && e.entries_len == 34);
+        assert!(e.entries_len + e.bounds_count * size_of::<EntryBound>() <= e.buffer.len());
+        let mut it = e.iter();
+        let (rk, rv) = it.next().unwrap();
+        assert!(rk.len() == 4 && rv.len() == 30);
+        assert!(rk[0] == k[0] && rk[3] == k[3] && rv[0] == v[0] && rv[29] == v[29]);
+        assert!(it.next().is_none());
+    }
+
     /// fits() is exact: an entry fits iff one more 16-byte bound and its bytes fit between the two ends
     #[kani::proof]
     fn c17_fits_exact_no_overflow() {
